@@ -180,7 +180,10 @@ class AnfTransformer(transformer.Base):
     if isinstance(node, ast.keyword):
       node.value = self._ensure_node_in_anf(parent, field, node.value)
       return node
-    if isinstance(node, (ast.Starred, ast.withitem, ast.slice)):
+    if (isinstance(node, (ast.Starred, ast.withitem, ast.slice, ast.Slice)) or
+        # Extended slice, e.g. x[a:b, c]: only valid inside the subscript.
+        (isinstance(node, ast.Tuple) and
+         any(isinstance(e, ast.Slice) for e in node.elts))):
       # These nodes aren't really extractable in their own right, but their
       # subnodes might be.  Propagate the parent and field name to the child
       # nodes, instead of querying the configuration for children of, e.g.,
